@@ -230,6 +230,38 @@ class _NotConcrete(Exception):
     pass
 
 
+class PyFunc:
+    """A module-level function of the analysed package, inlined when called."""
+
+    def __init__(self, fn, rel=""):
+        self.fn, self.rel = fn, rel
+
+    def __repr__(self):
+        return "<function %s>" % self.fn.name
+
+
+FUNCTION_INDEX = {}     # name -> [(rel, FunctionDef)]  (set by the check driver from the module index)
+
+
+def set_function_index(repo):
+    FUNCTION_INDEX.clear()
+    for rel, tree in repo.modules.items():
+        for node in tree.body:
+            if isinstance(node, ast.FunctionDef):
+                FUNCTION_INDEX.setdefault(node.name, []).append((rel, node))
+
+
+def lookup_function(name, prefer_rel=None):
+    cands = FUNCTION_INDEX.get(name, [])
+    if prefer_rel:
+        same = [c for c in cands if c[0] == prefer_rel]
+        if same:
+            return PyFunc(same[0][1], same[0][0])
+    if len(cands) == 1:
+        return PyFunc(cands[0][1], cands[0][0])
+    return None
+
+
 class SelfV:
     def __repr__(self):
         return "self"
@@ -527,6 +559,9 @@ class Interp:
             r = self.w.resolve_name(self, e.id, e)
             if r is not None:
                 return r
+            r = lookup_function(e.id, getattr(self.w, "current_rel", None))
+            if r is not None:
+                return r
             raise Unsupported(e, "unbound name")
         if isinstance(e, ast.Attribute):
             obj = self.eval(e.value, env)
@@ -797,6 +832,8 @@ class Interp:
         return ListObj(out)
 
     def load_attr(self, obj, attr, node):
+        if isinstance(obj, TypeV) and obj.name == "dict" and attr == "fromkeys":
+            return Builtin("dict.fromkeys")
         if isinstance(obj, SetObj) and attr in ("add", "pop", "discard", "remove", "update", "union"):
             return BoundMethod(obj, attr)
         if isinstance(obj, ListObj) and attr in ("append", "pop", "extend", "insert", "sort", "reverse", "clear", "remove"):
@@ -855,6 +892,18 @@ class Interp:
             raise Unsupported(e, "constructor call")
         if isinstance(f, BoundMethod):
             return self.call_method(f, args, kwargs, e)
+        if isinstance(f, PyFunc):
+            if self.depth >= self.max_depth + 3:
+                raise Unsupported(e, "call depth")
+            decos = [src(d) for d in f.fn.decorator_list]
+            if any("not_implemented" in d for d in decos):
+                raise AbstractRaise("NetworkXNotImplemented", e, explicit=True)
+            env = _bind(f.fn, args, kwargs, self, e)
+            self.depth += 1
+            try:
+                return self.call_function(f.fn, env)
+            finally:
+                self.depth -= 1
         return self.w.call(self, f, args, kwargs, e)
 
     def call_builtin(self, name, args, kwargs, node):
@@ -921,6 +970,13 @@ class Interp:
                 raise AbstractRaise("StopIteration", node, detail="next() on an exhausted iterator")
             it.pos += 1
             return it.items[it.pos - 1]
+        if name == "dict.fromkeys" and 1 <= len(args) <= 2:
+            seq = _concrete_seq(args[0])
+            if seq is not None:
+                d = DictObj()
+                for x in seq:
+                    d.entries.setdefault(self.dict_key(x, node), args[1] if len(args) == 2 else NONE)
+                return d
         if name == "enumerate" and 1 <= len(args) <= 2 and isinstance(args[0], (ListObj, TupleV, IterV)):
             start = 0
             if len(args) == 2 or "start" in kwargs:
@@ -961,6 +1017,25 @@ class Interp:
                     self.w.effect(("heap_append", obj.tag, repr(args[0])), node)
                 obj.items.append(args[0])
                 return NONE
+            if name == "extend" and len(args) == 1:
+                seq = _concrete_seq(args[0])
+                if seq is not None:
+                    if obj.persistent:
+                        self.w.effect(("heap_append", obj.tag, "extend"), node)
+                    obj.items.extend(seq)
+                    return NONE
+            if name == "pop" and len(args) <= 1 and not getattr(obj, "has_prefix", False):
+                i = args[0].v if args and isinstance(args[0], Const) and isinstance(args[0].v, int) else -1
+                if not obj.items or not (-len(obj.items) <= i < len(obj.items)):
+                    raise AbstractRaise("IndexError", node, detail="pop from empty list / bad index")
+                if obj.persistent:
+                    self.w.effect(("heap_del", obj.tag, i), node)
+                return obj.items.pop(i)
+            if name == "index" and len(args) == 1:
+                for i, x in enumerate(obj.items):
+                    if self.generic_eq(x, args[0], node):
+                        return Const(i)
+                raise AbstractRaise("ValueError", node, detail="value not in list")
             raise Unsupported(node, "list method %s" % name)
         if isinstance(obj, SetObj):
             if name == "add" and len(args) == 1:
@@ -1006,6 +1081,42 @@ class Interp:
         if isinstance(exc, ast.Name):
             return exc.id
         return "Exception"
+
+
+def _bind(fn, pos, kwargs, ip, node):
+    a = fn.args
+    if a.kwonlyargs or a.posonlyargs:
+        raise Unsupported(node, "callee signature of %s" % fn.name)
+    names = [x.arg for x in a.args]
+    env = {}
+    pos = list(pos)
+    if len(pos) > len(names):
+        if a.vararg:
+            env[a.vararg.arg] = TupleV(pos[len(names):])
+            pos = pos[:len(names)]
+        else:
+            raise AbstractRaise("TypeError", node, detail="too many arguments for %s" % fn.name)
+    elif a.vararg:
+        env[a.vararg.arg] = TupleV([])
+    for n, v in zip(names, pos):
+        env[n] = v
+    extra = {}
+    for k, v in kwargs.items():
+        if k in names and k not in env:
+            env[k] = v
+        elif a.kwarg and k not in names:
+            extra[Const(k)] = v
+        else:
+            raise AbstractRaise("TypeError", node, detail="bad keyword %s for %s" % (k, fn.name))
+    if a.kwarg:
+        env[a.kwarg.arg] = DictObj(extra)
+    for n, d in zip(names[len(names) - len(a.defaults):], a.defaults):
+        if n not in env:
+            env[n] = ip.eval(d, {})
+    for n in names:
+        if n not in env:
+            raise AbstractRaise("TypeError", node, detail="missing argument %s of %s" % (n, fn.name))
+    return env
 
 
 _GEN_CACHE = {}
